@@ -349,6 +349,22 @@ def run_op(pool: Pool, op: dict) -> None:
         _guard(m.is_in_set, ms)
         _guard(Mark.same_set, ms, before)
         require(len(ms) == len(before) and all(a is b for a, b in zip(ms, before)), "argument:mark-list-mutated", f"mark-set algebra changed the list passed in (mark {op['mark']})")
+        # an UNSORTED caller-held list (set_from documents that it accepts one) handed to everything that builds a mark
+        # set from it: it has to come back exactly as it was
+        unsorted = list(reversed(ms)) + ([m] if not any(x.type is m.type for x in ms) else [])
+        kept = list(unsorted)
+        r = _guard(Mark.set_from, unsorted)
+        if r is not None and r is not unsorted:
+            pool.add("marks", r, "Mark.set_from(unsorted)")
+        n_ = _guard(lib.text, "t", unsorted)
+        if n_ is not None:
+            pool.add("node", n_, "Schema.text(unsorted marks)")
+        for t in list(lib.nodes.values())[:4]:
+            if not t.is_text:
+                n_ = _guard(t.create, None, None, unsorted)
+                if n_ is not None:
+                    pool.add("node", n_, "NodeType.create(unsorted marks)")
+        require(len(unsorted) == len(kept) and all(a is b for a, b in zip(unsorted, kept)), "argument:mark-list-mutated", "a mark list passed to set_from / text / create was reordered or changed in place")
     elif k == "allowed_marks":
         ms = it[op["marks"]]["obj"]
         before = list(ms)
